@@ -145,10 +145,13 @@ def _parse(module, out):
     return res
 
 
-def replay(module, func, args):
-    p = subprocess.run([PY, CHRUN, 'replay', module, func, args],
-                       capture_output=True, text=True, cwd=VERIF,
-                       timeout=600)
+def replay(module, func, args, timeout=900):
+    try:
+        p = subprocess.run([PY, CHRUN, 'replay', module, func, args],
+                           capture_output=True, text=True, cwd=VERIF,
+                           timeout=timeout)
+    except subprocess.TimeoutExpired:
+        return {'timeout': True}
     for line in p.stdout.splitlines():
         if line.startswith('REPLAY-RESULT '):
             return json.loads(line[len('REPLAY-RESULT '):])
@@ -168,6 +171,8 @@ def _classify(ob, msgs):
             what, args = m.group('what'), m.group('args')
             ob.cex = args
             r = replay(ob.module, ob.func, args)
+            if r.get('timeout'):
+                return INCONCLUSIVE, 'native replay of (%s) timed out' % args
             if 'error' in r:
                 return HARNESS_ERROR, 'replay failed: %r' % r
             raised = r.get('raised', '')
@@ -213,8 +218,11 @@ def run_native(ob):
     """An enumeration obligation: the function runs natively over a finite
     table (no symbolic inputs, so no solver is involved)."""
     t0 = time.time()
-    r = replay(ob.module, ob.func, ob.native_args or '')
-    if 'error' in r:
+    r = replay(ob.module, ob.func, ob.native_args or '',
+               timeout=max(900, 3 * ob.timeout))
+    if r.get('timeout'):
+        ob.verdict, ob.detail = INCONCLUSIVE, 'native run timed out'
+    elif 'error' in r:
         ob.verdict, ob.detail = HARNESS_ERROR, 'native run failed: %r' % r
     elif r.get('raised'):
         ob.verdict, ob.detail = HARNESS_ERROR, 'raised ' + r['raised']
